@@ -1,5 +1,625 @@
 import XmpProofs.TestLoad
-/-! # C11 — Test and load agree, and testing has no side effects -/
+/-!
+# C11 — Test and load agree, and testing has no side effects
+
+Property theorems over the model `XmpModel.TestLoad` (src/load.c `test_module`, `load_module`,
+the eight public wrappers; loaders/common.c `libxmp_copy_adjust`, `libxmp_read_title`;
+load_helpers.c `libxmp_adjust_string`; prowizard/prowiz.c `pw_check`'s writes into `info`).
+
+Every loader (`test`, `load`), `pw_check` and `libxmp_decrunch` is a parameter: the theorems hold
+for EVERY loader table and every stream.  What the theorems assume about the loaders is spelled
+out in `Premise` (a probe only reads the stream, and its verdict does not depend on whether a
+title buffer is passed) and `NonPos` (a probe never answers with a positive value); both are
+checked on the real `format_loaders[]` for every input the oracle runs (harness/c11_agree.c).
+-/
 namespace Xmp.TestLoad
+
+/-! ## constants (regenerated from the headers on every run) -/
+
+theorem C11_codes_distinct :
+    eFormat ≠ 0 ∧ eFormat ≠ eLoad ∧ eFormat ≠ eSystem ∧ eFormat ≠ eDepack ∧ eFormat ≠ eInvalid ∧
+    eDepack ≠ 0 ∧ eSystem ≠ 0 ∧ eInvalid ≠ 0 ∧ eLoad ≠ 0 := by decide
+
+/-- `libxmp_prepare_scan` can only yield 0, −LOAD or −SYSTEM (generated list of its `return`s) -/
+theorem C11_prepare_scan_codes :
+    ∀ v ∈ Gen.prepareScanReturns, v = 0 ∨ v = eLoad ∨ v = eSystem := by decide
+
+/-- the name that triggers the ProWizard special case occurs exactly once in `format_loaders[]`,
+and every format name (loader or ProWizard) fits `xmp_test_info.type` with its terminator -/
+theorem C11_table_names :
+    (Gen.formatLoaderNames.filter (· == "prowizard")).length = 1 ∧
+    (∀ n ∈ Gen.formatLoaderNames, n.utf8ByteSize < Gen.XMP_NAME_SIZE - 1) ∧
+    (∀ n ∈ Gen.pwFormatNames, n.utf8ByteSize < Gen.XMP_NAME_SIZE - 1) ∧
+    Gen.pwTitleCopy ≤ Gen.pwTitleBuf ∧ Gen.pwTitleCopy ≤ Gen.XMP_NAME_SIZE := by decide
+
+/-! ## C11_agree -/
+
+/-- what `libxmp_prepare_scan` may return (tie: `Gen.prepareScanReturns`) -/
+def PrepOk (ls : List Loader) : Prop :=
+  ∀ l ∈ ls, ∀ s, (l.load s).prep ∈ Gen.prepareScanReturns
+
+theorem loadModule_format (e : Env) (s : Stream) (h : (loadWalk e.loaders s (-1)).1 < 0) :
+    loadModule e s = { rc := eFormat, recognized := false } := by
+  unfold loadModule
+  generalize loadWalk e.loaders s (-1) = W at h
+  obtain ⟨tr, sel, s2⟩ := W
+  have h' : tr < 0 := h
+  simp only [h', if_true]
+
+theorem loadModule_sel (e : Env) (s : Stream) (l : Loader) (o : LoadOut)
+    (h0 : ¬ (loadWalk e.loaders s (-1)).1 < 0) (hs : (loadWalk e.loaders s (-1)).2.1 = some (l, o)) :
+    (loadModule e s).recognized = true ∧
+    ((loadModule e s).rc = eLoad ∨ ((loadModule e s).rc = o.prep ∧ o.prep < 0) ∨ (loadModule e s).rc = 0) := by
+  unfold loadModule
+  generalize loadWalk e.loaders s (-1) = W at h0 hs
+  obtain ⟨tr, sel, s2⟩ := W
+  have h0' : ¬ tr < 0 := h0
+  have hs' : sel = some (l, o) := hs
+  subst hs'
+  simp only [h0', if_false]
+  split
+  · exact ⟨rfl, Or.inl rfl⟩
+  · split
+    · exact ⟨rfl, Or.inl rfl⟩
+    · split
+      · rename_i hneg; exact ⟨rfl, Or.inr (Or.inl ⟨rfl, hneg⟩)⟩
+      · split
+        · exact ⟨rfl, Or.inl rfl⟩
+        · exact ⟨rfl, Or.inr (Or.inr rfl)⟩
+
+/-- **C11_agree** (core): for every loader table and every stream, `test_module` returns 0
+exactly when `load_module` gets past format recognition (and then load returns 0, −LOAD or
+−SYSTEM), it returns −FORMAT exactly when `load_module` does, and it returns nothing else. -/
+theorem C11_agree (e : Env) (s : Stream) (info : Option Info)
+    (hp : Premise e.loaders) (hn : NonPos e.loaders) (hprep : PrepOk e.loaders) :
+    ((testModule e s info).1 = 0 ↔ (loadModule e s).recognized = true) ∧
+    ((testModule e s info).1 = eFormat ↔ (loadModule e s).rc = eFormat) ∧
+    ((testModule e s info).1 = 0 ∨ (testModule e s info).1 = eFormat) ∧
+    ((loadModule e s).recognized = true →
+      (loadModule e s).rc = 0 ∨ (loadModule e s).rc = eLoad ∨ (loadModule e s).rc = eSystem) := by
+  have hw := walks_agree e e.loaders hp s s e.bufGarbage
+    (info.map fun i => { name := set0 i.name, type := set0 i.type }) (-1) rfl
+  have hiff : (testModule e s info).1 = 0 ↔ (loadWalk e.loaders s (-1)).2.1.isSome = true := hw.1
+  have hor : (testModule e s info).1 = 0 ∨ (testModule e s info).1 = eFormat := hw.2
+  have hd := C11_codes_distinct
+  cases hsel : (loadWalk e.loaders s (-1)).2.1 with
+  | none =>
+    have htr := loadWalk_none_neg e.loaders hn s (-1) (by decide) (by rw [hsel]; rfl)
+    have hL := loadModule_format e s htr
+    have ht : (testModule e s info).1 ≠ 0 := fun h => by
+      have := hiff.mp h; rw [hsel] at this; simp at this
+    have ht' : (testModule e s info).1 = eFormat := hor.resolve_left ht
+    rw [hL, ht']
+    exact ⟨⟨fun h => absurd h hd.1, fun h => by simp at h⟩, ⟨fun _ => rfl, fun _ => rfl⟩, Or.inr rfl,
+      fun h => by simp at h⟩
+  | some lo =>
+    obtain ⟨l, o⟩ := lo
+    have htr0 : (loadWalk e.loaders s (-1)).1 = 0 := loadWalk_some_tr e.loaders s (-1) (by rw [hsel]; rfl)
+    have h0 : ¬ (loadWalk e.loaders s (-1)).1 < 0 := by rw [htr0]; decide
+    obtain ⟨hrec, hrc⟩ := loadModule_sel e s l o h0 hsel
+    have ht : (testModule e s info).1 = 0 := hiff.mpr (by rw [hsel]; rfl)
+    obtain ⟨hlm, s', ho⟩ := loadWalk_sel_mem e.loaders s (-1) l o hsel
+    have hpr := hprep l hlm s'
+    rw [← ho] at hpr
+    have hpc := C11_prepare_scan_codes o.prep hpr
+    have rc3 : (loadModule e s).rc = 0 ∨ (loadModule e s).rc = eLoad ∨ (loadModule e s).rc = eSystem := by
+      rcases hrc with h | ⟨h, hneg⟩ | h
+      · exact Or.inr (Or.inl h)
+      · rcases hpc with h' | h' | h'
+        · rw [h'] at hneg; exact absurd hneg (by decide)
+        · exact Or.inr (Or.inl (h.trans h'))
+        · exact Or.inr (Or.inr (h.trans h'))
+      · exact Or.inl h
+    rw [ht]
+    refine ⟨⟨fun _ => hrec, fun _ => rfl⟩, ⟨fun h => absurd h.symm hd.1, fun h => ?_⟩, Or.inl rfl, fun _ => rc3⟩
+    rcases rc3 with h' | h' | h' <;> rw [h'] at h
+    · exact absurd h.symm hd.1
+    · exact absurd h.symm hd.2.1
+    · exact absurd h.symm hd.2.2.1
+
+/-- Without `NonPos` the agreement fails: a last loader whose probe answers with a positive
+value makes `load_module` report −LOAD (its `load_result` is still −1) where `test_module`
+reports −FORMAT.  (No loader of the real table does this; the oracle checks it per input.) -/
+def posLoader : Loader :=
+  { name := [65], test := fun s _ => { rc := 1, st := s }, load := fun _ => { rc := 0, name := [] } }
+
+theorem C11_agree_needs_nonpos :
+    let e : Env := { loaders := [posLoader], pw := fun _ => none, bufGarbage := [], pwGarbage := [] }
+    (testModule e { data := [1] } none).1 = eFormat ∧ (loadModule e { data := [1] }).rc = eLoad := by
+  decide
+
+/-! ### the wrappers -/
+
+theorem openSource_pos (src : Source) (h : Handle) (s : Stream) (ho : openSource src = .ok (h, s)) :
+    s.rewind = s := by
+  cases src with
+  | path st =>
+    cases st with
+    | none => simp [openSource] at ho
+    | some v =>
+      obtain ⟨a, b, c, d⟩ := v
+      simp only [openSource] at ho
+      split at ho
+      · simp at ho
+      · split at ho
+        · simp at ho
+        · simp only [Except.ok.injEq, Prod.mk.injEq] at ho
+          rw [← ho.2]; rfl
+  | memory d n =>
+    simp only [openSource] at ho
+    split at ho
+    · simp at ho
+    · simp only [Except.ok.injEq, Prod.mk.injEq] at ho
+      rw [← ho.2]; rfl
+  | file i d ok =>
+    simp only [openSource] at ho
+    split at ho
+    · simp only [Except.ok.injEq, Prod.mk.injEq] at ho
+      rw [← ho.2]; rfl
+    · simp at ho
+  | callbacks ok d =>
+    simp only [openSource] at ho
+    split at ho
+    · simp only [Except.ok.injEq, Prod.mk.injEq] at ho
+      rw [← ho.2]; rfl
+    · simp at ho
+
+theorem openSource_err (src : Source) (rc : Int) (ho : openSource src = .error rc) :
+    rc = eSystem ∨ rc = eInvalid := by
+  cases src with
+  | path st =>
+    cases st with
+    | none => simp [openSource] at ho; exact Or.inl ho.symm
+    | some v =>
+      obtain ⟨a, b, c, d⟩ := v
+      simp only [openSource] at ho
+      split at ho
+      · simp at ho; exact Or.inl ho.symm
+      · split at ho
+        · simp at ho; exact Or.inl ho.symm
+        · simp at ho
+  | memory d n =>
+    simp only [openSource] at ho
+    split at ho
+    · simp at ho; exact Or.inr ho.symm
+    · simp at ho
+  | file i d ok =>
+    simp only [openSource] at ho
+    split at ho
+    · simp at ho
+    · simp at ho; exact Or.inl ho.symm
+  | callbacks ok d =>
+    simp only [openSource] at ho
+    split at ho
+    · simp at ho
+    · simp at ho; exact Or.inl ho.symm
+
+theorem xmpTest_open_error (e : Env) (decr : Stream → Decr) (src : Source) (info : Option Info) (w : World)
+    (rc : Int) (ho : openSource src = .error rc) :
+    xmpTest e decr src info w = { rc := rc, info := info, world := w } := by
+  unfold xmpTest; rw [ho]
+
+theorem xmpLoad_open_error (e : Env) (decr : Stream → Decr) (src : Source) (w : World)
+    (rc : Int) (ho : openSource src = .error rc) :
+    xmpLoad e decr src w = { rc := rc, loaded := none, world := w } := by
+  unfold xmpLoad; rw [ho]
+
+/-- what the test wrapper does once the handle is open -/
+def testAfter (e : Env) (info : Option Info) (w : World) (h : Handle) :
+    Option (World × Handle × Stream) → TestResult
+  | none => { rc := eDepack, info := info, world := closeInternal w h }
+  | some (w1, h1, s1) =>
+    { rc := (testModule e s1 info).1, info := (testModule e s1 info).2.1, world := closeInternal w1 h1 }
+
+/-- what the load wrapper does once the handle is open -/
+def loadAfter (e : Env) (w : World) (h : Handle) : Option (World × Handle × Stream) → LoadResult
+  | none => { rc := eDepack, loaded := none, world := closeInternal w h }
+  | some (w1, h1, s1) => { rc := (loadModule e s1).rc, loaded := some (loadModule e s1), world := closeInternal w1 h1 }
+
+theorem xmpTest_ok (e : Env) (decr : Stream → Decr) (src : Source) (info : Option Info) (w : World)
+    (h : Handle) (s : Stream) (ho : openSource src = .ok (h, s)) :
+    xmpTest e decr src info w =
+      testAfter e info w h (if testDepacks src then applyDecr w h s (decr s) else some (w, h, s)) := by
+  unfold xmpTest; rw [ho]
+  simp only
+  split <;> rename_i heq <;> rw [heq] <;> rfl
+
+theorem xmpLoad_ok (e : Env) (decr : Stream → Decr) (src : Source) (w : World)
+    (h : Handle) (s : Stream) (ho : openSource src = .ok (h, s)) :
+    xmpLoad e decr src w =
+      loadAfter e w h (if loadDepacks src then applyDecr w h s (decr s) else some (w, h, s)) := by
+  unfold xmpLoad; rw [ho]
+  simp only
+  split <;> rename_i heq <;> rw [heq] <;> rfl
+
+/-- after the depack step both wrappers stand on the same stream, or both gave up -/
+theorem after_same (src : Source) (w : World) (h : Handle) (s : Stream) (decr : Stream → Decr)
+    (ho : openSource src = .ok (h, s))
+    (hsame : testDepacks src = loadDepacks src ∨ ∀ h s, openSource src = .ok (h, s) → decr s = .notPacked) :
+    ((if testDepacks src then applyDecr w h s (decr s) else some (w, h, s)) = none ∧
+     (if loadDepacks src then applyDecr w h s (decr s) else some (w, h, s)) = none) ∨
+    ∃ w1 h1 w2 h2 s1,
+      (if testDepacks src then applyDecr w h s (decr s) else some (w, h, s)) = some (w1, h1, s1) ∧
+      (if loadDepacks src then applyDecr w h s (decr s) else some (w, h, s)) = some (w2, h2, s1) := by
+  have hrw := openSource_pos src h s ho
+  by_cases ht : testDepacks src = true
+  · by_cases hl : loadDepacks src = true
+    · simp only [ht, hl, if_true]
+      cases decr s with
+      | notPacked => exact Or.inr ⟨_, _, _, _, _, rfl, rfl⟩
+      | depacked d => exact Or.inr ⟨_, _, _, _, _, rfl, rfl⟩
+      | fail => exact Or.inl ⟨rfl, rfl⟩
+    · have hnp : decr s = .notPacked := by
+        rcases hsame with h' | h'
+        · rw [ht] at h'; exact absurd h'.symm hl
+        · exact h' h s ho
+      simp only [ht, hl, if_true, hnp, applyDecr, hrw]
+      exact Or.inr ⟨_, _, _, _, _, rfl, rfl⟩
+  · by_cases hl : loadDepacks src = true
+    · exfalso
+      cases src <;> simp [testDepacks, loadDepacks] at ht hl
+    · simp only [ht, hl]
+      exact Or.inr ⟨_, _, _, _, _, rfl, rfl⟩
+
+/-- **C11_agree** (entry points): for each of the four pairs, when both wrappers treat the depack
+step alike (path, memory, callbacks) or the input is not a container (`libxmp_decrunch` leaves
+the stream alone — the FILE pair, where only testing unpacks), the test wrapper returns 0
+exactly when the load wrapper gets past recognition, −FORMAT exactly when load does, and
+otherwise both report the same open/argument/depack error and load never reaches recognition. -/
+theorem C11_agree_wrappers (e : Env) (decr : Stream → Decr) (src : Source) (info : Option Info) (w : World)
+    (hp : Premise e.loaders) (hn : NonPos e.loaders) (hprep : PrepOk e.loaders)
+    (hsame : testDepacks src = loadDepacks src ∨
+      ∀ h s, openSource src = .ok (h, s) → decr s = .notPacked) :
+    ((xmpTest e decr src info w).rc = 0 ↔
+        ∃ r, (xmpLoad e decr src w).loaded = some r ∧ r.recognized = true) ∧
+    ((xmpTest e decr src info w).rc = eFormat ↔ (xmpLoad e decr src w).rc = eFormat) ∧
+    ((xmpTest e decr src info w).rc ≠ 0 → (xmpTest e decr src info w).rc ≠ eFormat →
+        (xmpLoad e decr src w).rc = (xmpTest e decr src info w).rc ∧ (xmpLoad e decr src w).loaded = none) := by
+  have hd := C11_codes_distinct
+  cases ho : openSource src with
+  | error rc =>
+    have hrc := openSource_err src rc ho
+    rw [xmpTest_open_error e decr src info w rc ho, xmpLoad_open_error e decr src w rc ho]
+    refine ⟨⟨fun h => ?_, fun ⟨r, h, _⟩ => by simp at h⟩, Iff.rfl, fun _ _ => ⟨rfl, rfl⟩⟩
+    have h' : rc = 0 := h
+    rcases hrc with h2 | h2 <;> rw [h2] at h'
+    · exact absurd h' hd.2.2.2.2.2.2.1
+    · exact absurd h' hd.2.2.2.2.2.2.2.1
+  | ok hs =>
+    obtain ⟨h, s⟩ := hs
+    rw [xmpTest_ok e decr src info w h s ho, xmpLoad_ok e decr src w h s ho]
+    rcases after_same src w h s decr ho hsame with ⟨h1, h2⟩ | ⟨w1, h1, w2, h2, s1, e1, e2⟩
+    · rw [h1, h2]
+      refine ⟨⟨fun h => absurd h hd.2.2.2.2.2.1, fun ⟨r, h, _⟩ => by simp [loadAfter] at h⟩, Iff.rfl,
+        fun _ _ => ⟨rfl, rfl⟩⟩
+    · rw [e1, e2]
+      obtain ⟨a1, a2, a3, _⟩ := C11_agree e s1 info hp hn hprep
+      refine ⟨⟨fun h => ⟨_, rfl, a1.mp h⟩, fun ⟨r, h, hr⟩ => ?_⟩, a2, fun n0 nf => ?_⟩
+      · have : loadModule e s1 = r := by simpa [loadAfter] using h
+        rw [← this] at hr
+        exact a1.mpr hr
+      · rcases a3 with h | h
+        · exact absurd h n0
+        · exact absurd h nf
+
+/-! ## C11_strings -/
+
+/-- **C11_strings** (failure): whenever `test_module` does not return 0 and `info ≠ NULL`,
+both strings are empty. -/
+theorem C11_strings_failure (e : Env) (s : Stream) (i : Info) (h : (testModule e s (some i)).1 ≠ 0) :
+    ∃ i', (testModule e s (some i)).2.1 = some i' ∧ cstr i'.name = [] ∧ cstr i'.type = [] := by
+  unfold testModule at h ⊢
+  rw [testWalk_fail_info e _ _ _ _ h]
+  exact ⟨_, rfl, cstr_set0 _, cstr_set0 _⟩
+
+/-- the ProWizard detector that matched stored a terminated title in `title[21]`
+(true for every detector that calls `pw_read_title`; not for those that do not — F15) -/
+def PwTitleTerminated (e : Env) : Prop :=
+  ∀ st h, e.pw st = some h →
+    hasNul ((overlayOpt h.title (pwTitleInit e.pwGarbage)).take Gen.pwTitleCopy) = true ∧
+    ((overlayOpt h.title (pwTitleInit e.pwGarbage)).take Gen.pwTitleCopy).length ≤ nameSize
+
+/-- ProWizard format names fit (tie: `C11_table_names`) -/
+def PwNameShort (e : Env) : Prop :=
+  ∀ st h, e.pw st = some h → (cstr h.fname).length < nameSize - 1
+
+/-- **C11_strings** (success): when `test_module` returns 0 both arrays keep their size and hold
+a NUL-terminated string — for every loader other than ProWizard unconditionally (whatever the
+probe left in the uninitialised `buf`), for ProWizard provided the detector terminated its
+title (see `C11_strings_counterexample` for what happens otherwise). -/
+theorem C11_strings_success_partial (e : Env) (s : Stream) (i : Info)
+    (hw : i.name.length = nameSize ∧ i.type.length = nameSize)
+    (hpt : PwTitleTerminated e) (hpn : PwNameShort e)
+    (h : (testModule e s (some i)).1 = 0) :
+    ∃ i', (testModule e s (some i)).2.1 = some i' ∧ hasNul i'.name = true ∧ hasNul i'.type = true ∧
+      i'.name.length = nameSize ∧ i'.type.length = nameSize := by
+  unfold testModule at h ⊢
+  have hn0 : (set0 i.name).length = nameSize := by rw [set0_length]; exact hw.1
+  have ht0 : (set0 i.type).length = nameSize := by rw [set0_length]; exact hw.2
+  have hpos : 0 < nameSize := by decide
+  rcases testWalk_ok_info e _ _ _ _ h with ⟨l, _, st, _, hr⟩ | ⟨l, _, b, _, hr⟩
+  · rw [hr]
+    simp only [Option.map_some]
+    cases hpw : e.pw st with
+    | none =>
+      refine ⟨_, rfl, ?_, ?_, ?_, ?_⟩ <;> simp only [pwFill]
+      · exact hasNul_set0 (by omega)
+      · exact hasNul_set0 (by omega)
+      · exact hn0
+      · exact ht0
+    | some hit =>
+      obtain ⟨h1, h2⟩ := hpt st hit hpw
+      have h3 := hpn st hit hpw
+      refine ⟨_, rfl, ?_, ?_, ?_, ?_⟩ <;> simp only [pwFill]
+      · exact hasNul_append_left h1
+      · exact strncpyBuf_hasNul _ _ _ h3
+      · exact (overlay_length _ _ (by rw [hn0]; exact h2)).trans hn0
+      · rw [strncpyBuf_length _ _ _ (by rw [ht0]; decide)]; exact ht0
+  · rw [hr]
+    simp only [Option.map_some]
+    exact ⟨_, rfl, boundedCopy_hasNul _ _, boundedCopy_hasNul _ _, boundedCopy_length _ _ hn0,
+      boundedCopy_length _ _ ht0⟩
+
+/-- **C11_strings** for tables without a "prowizard" entry: no side condition at all. -/
+theorem C11_strings_success (e : Env) (s : Stream) (i : Info)
+    (hw : i.name.length = nameSize ∧ i.type.length = nameSize)
+    (hnopw : ∀ l ∈ e.loaders, l.name ≠ prowizardName)
+    (h : (testModule e s (some i)).1 = 0) :
+    ∃ i', (testModule e s (some i)).2.1 = some i' ∧ hasNul i'.name = true ∧ hasNul i'.type = true ∧
+      i'.name.length = nameSize ∧ i'.type.length = nameSize := by
+  unfold testModule at h ⊢
+  have hn0 : (set0 i.name).length = nameSize := by rw [set0_length]; exact hw.1
+  have ht0 : (set0 i.type).length = nameSize := by rw [set0_length]; exact hw.2
+  rcases testWalk_ok_info e _ _ _ _ h with ⟨l, hl, _, hname, _⟩ | ⟨l, _, b, _, hr⟩
+  · exact absurd hname (hnopw l hl)
+  · rw [hr]
+    simp only [Option.map_some]
+    exact ⟨_, rfl, boundedCopy_hasNul _ _, boundedCopy_hasNul _ _, boundedCopy_length _ _ hn0,
+      boundedCopy_length _ _ ht0⟩
+
+/-- a detector that called `pw_read_title` satisfies `PwTitleTerminated` -/
+theorem pwTitle_written_terminated (garbage src : Bytes) (n : Nat) :
+    hasNul ((overlayOpt (some (pwReadTitle (some src) n)) (pwTitleInit garbage)).take Gen.pwTitleCopy) = true := by
+  have hw : (src.take (min n 20) ++ [0]).length ≤ Gen.pwTitleCopy := by
+    simp only [List.length_append, List.length_take, List.length_cons, List.length_nil, Gen.pwTitleCopy]; omega
+  show hasNul ((src.take (min n 20) ++ [0] ++ (pwTitleInit garbage).drop _).take Gen.pwTitleCopy) = true
+  rw [List.take_append, List.take_of_length_le hw]
+  apply hasNul_append_left
+  apply hasNul_append_right
+  simp [hasNul]
+
+/-- The witness behind finding F15: the ProWizard loader matches, the detector leaves
+`title[21]` untouched, the stack garbage holds no NUL, the caller's `info->name` holds no NUL
+beyond its first byte.  Unless `pw_check` initialises `title` (generated fact
+`Gen.pwTitleInitFirst`), the reported title is NOT terminated inside its 64 bytes. -/
+def pwLoader : Loader :=
+  { name := prowizardName, test := fun s _ => { rc := 0, st := s }, load := fun _ => { rc := 0, name := [] } }
+
+def f15Env : Env :=
+  { loaders := [pwLoader], pw := fun _ => some { title := none, fname := [80] },
+    bufGarbage := [], pwGarbage := List.replicate 21 0x41 }
+
+def f15Info : Info := { name := List.replicate 64 0x42, type := List.replicate 64 0x43 }
+
+theorem C11_strings_counterexample :
+    (testModule f15Env { data := [1] } (some f15Info)).1 = 0 ∧
+    ((Gen.pwTitleInitFirst || Gen.pwTitleInitAll) = true ∨
+      ((testModule f15Env { data := [1] } (some f15Info)).2.1.map fun i => hasNul i.name) = some false) := by
+  decide
+
+/-- The wrappers return before `test_module` when opening or unpacking fails, so `info` is
+handed back untouched: with a caller-filled `info` the strings are then NOT empty
+(observed on the real code: `strings:not-empty:*:rc=-5`). -/
+theorem C11_strings_wrapper_counterexample :
+    let e : Env := { loaders := [], pw := fun _ => none, bufGarbage := [], pwGarbage := [] }
+    let r := xmpTest e (fun _ => .fail) (.path (some (false, true, 9, [1, 2, 3]))) (some f15Info) {}
+    r.rc = eDepack ∧ r.info = some f15Info ∧ cstr f15Info.name ≠ [] := by
+  decide
+
+/-- What does hold for the wrappers: if the call got as far as `test_module`
+(any return value other than the open/argument/depack errors), `C11_strings_failure` applies. -/
+theorem C11_strings_wrappers_partial (e : Env) (decr : Stream → Decr) (src : Source) (i : Info) (w : World)
+    (h : (xmpTest e decr src (some i) w).rc = eFormat) :
+    ∃ i', (xmpTest e decr src (some i) w).info = some i' ∧ cstr i'.name = [] ∧ cstr i'.type = [] := by
+  have hd := C11_codes_distinct
+  unfold xmpTest at h ⊢
+  cases ho : openSource src with
+  | error rc =>
+    simp only [ho] at h
+    rcases openSource_err src rc ho with h' | h' <;> rw [h'] at h
+    · exact absurd h.symm hd.2.2.1
+    · exact absurd h.symm hd.2.2.2.2.1
+  | ok hs =>
+    obtain ⟨hh, s⟩ := hs
+    simp only [ho] at h ⊢
+    split at h
+    · simp only at h; exact absurd h.symm hd.2.2.2.1
+    · rename_i w1 h1 s1 _
+      simp only at h ⊢
+      exact C11_strings_failure e s1 i (by rw [h]; exact hd.1)
+
+/-! ## C11_title -/
+
+/-- **C11_title**: on EVERY byte string `r` and length `n`
+* the title `libxmp_copy_adjust` makes of `r[0..n)` (what `libxmp_read_title` reports when
+  testing) and the title `libxmp_adjust_string` makes of the same raw bytes (what
+  `load_module` leaves in `mod->name` when the loader stored them raw) have the same canonical
+  form — they "match up to the library's replacement of unprintable characters";
+* both are, exactly, the C string `s` at `r[0..n)` pushed through a character map and then
+  right-trimmed of spaces, the two maps agreeing on printable characters and sending every
+  unprintable byte to `'.'` resp. `' '`;
+* when the loader itself used `libxmp_copy_adjust`, `libxmp_adjust_string` changes nothing:
+  the two titles are then identical. -/
+theorem C11_title (r : Bytes) (n : Nat) :
+    titleMatch (copyAdjust r n) (adjustString (r.take n)) = true ∧
+    (copyAdjust r n = trimR ((cstr (r.take n)).map dotCh) ∧
+      adjustString (r.take n) = trimR ((cstr (r.take n)).map spCh) ∧
+      (∀ c, isPrint c = true → dotCh c = c ∧ spCh c = c) ∧
+      (∀ c, isPrint c = false → dotCh c = 46 ∧ spCh c = 32)) ∧
+    adjustString (copyAdjust r n) = copyAdjust r n := by
+  refine ⟨?_, ⟨rfl, rfl, ?_, ?_⟩, ?_⟩
+  · simp only [titleMatch, canon_copyAdjust, canon_adjustString, beq_self_eq_true]
+  · intro c h; simp [dotCh, spCh, h]
+  · intro c h; simp [dotCh, spCh, h]
+  · have hp := copyAdjust_printable r n
+    have nz : ∀ c ∈ copyAdjust r n, c ≠ 0 := fun c hc => isPrint_ne_zero (hp c hc)
+    unfold adjustString
+    rw [cstr_of_no_zero _ nz, map_spCh_of_printable _ hp]
+    unfold copyAdjust
+    exact trimR_idem _
+
+/-- the same at buffer level: the C strings found in the arrays the two C functions leave -/
+theorem C11_title_buffers (r : Bytes) (n : Nat) (b : Bytes) (hb : hasNul b = true) :
+    cstr (copyAdjustBuf r n) = copyAdjust r n ∧ cstr (adjustStringBuf b) = adjustString b ∧
+    (copyAdjustBuf r n).length = n + 1 ∧ (adjustStringBuf b).length = b.length :=
+  ⟨cstr_copyAdjustBuf r n, cstr_adjustStringBuf b hb, copyAdjustBuf_length r n, adjustStringBuf_length b⟩
+
+/-- ProWizard reports the raw bytes (`pw_read_title` does not replace anything); the loaded
+title is `libxmp_adjust_string` of them: they match as well. -/
+theorem C11_title_raw (s : Bytes) : titleMatch s (adjustString s) = true := by
+  simp only [titleMatch, canon_adjustString, beq_self_eq_true]
+
+/-- The relation is transitive and symmetric by construction (equality of canonical forms),
+and it is not coarser than advertised: on titles that hold only printable characters other than
+the replacement character `'.'` and do not end in a space it is plain equality. -/
+theorem C11_title_exact (t l : Bytes)
+    (ht : (∀ c ∈ t, isPrint c = true ∧ c ≠ 46) ∧ ∀ h : t ≠ [], t.getLast h ≠ 32)
+    (hl : (∀ c ∈ l, isPrint c = true ∧ c ≠ 46) ∧ ∀ h : l ≠ [], l.getLast h ≠ 32)
+    (hm : titleMatch t l = true) : t = l := by
+  have clean : ∀ (x : Bytes), ((∀ c ∈ x, isPrint c = true ∧ c ≠ 46) ∧ ∀ h : x ≠ [], x.getLast h ≠ 32) →
+      canon x = x := by
+    intro x hx
+    unfold canon
+    rw [cstr_of_no_zero x (fun c hc => isPrint_ne_zero (hx.1 c hc).1)]
+    have : x.map canonCh = x := by
+      have hx1 := hx.1
+      clear hx
+      induction x with
+      | nil => rfl
+      | cons a as ih =>
+        simp only [List.map_cons]
+        rw [ih (fun c hc => hx1 c (by simp [hc]))]
+        have := hx1 a (by simp)
+        simp [canonCh, this.1, this.2]
+    rw [this]
+    exact trimR_eq_self_of_getLast x hx.2
+  have := beq_iff_eq.mp hm
+  rw [clean t ht, clean l hl] at this
+  exact this
+
+/-! ## C11_no_side_effect -/
+
+/-- **C11_no_side_effect**: `xmpTest` has no player context among its arguments or results (the
+four C wrappers take `(source, struct xmp_test_info *)` only), and the only thing it does to the
+world is closing handles — never the caller's `FILE`: whatever the loaders, `pw_check` and
+`libxmp_decrunch` do (including a successful depack, which swaps the handle's backing store). -/
+theorem C11_no_side_effect (e : Env) (decr : Stream → Decr) (id : Nat) (data : Bytes) (ok : Bool)
+    (info : Option Info) (w : World) (h : id ∉ w.closed) :
+    id ∉ (xmpTest e decr (.file id data ok) info w).world.closed := by
+  unfold xmpTest
+  cases ok with
+  | false => simpa [openSource] using h
+  | true =>
+    simp only [openSource, testDepacks, if_true]
+    generalize decr _ = d
+    cases d <;> simpa [applyDecr, closeInternal] using h
+
+/-- and `xmp_test_module(path, …)` closes the `FILE` it opened itself exactly once, on every path
+(not packed, unpacked, depack failure): no descriptor is left behind. -/
+theorem C11_no_leak (e : Env) (decr : Stream → Decr) (id : Nat) (data : Bytes) (info : Option Info) (w : World) :
+    (xmpTest e decr (.path (some (false, true, id, data))) info w).world.closed = id :: w.closed := by
+  unfold xmpTest
+  simp only [openSource, testDepacks, if_true]
+  generalize decr _ = d
+  cases d <;> simp [applyDecr, closeInternal]
+
+/-- memory and callback sources never close anything -/
+theorem C11_no_close_mem_cb (e : Env) (decr : Stream → Decr) (info : Option Info) (w : World)
+    (data : Bytes) (n : Int) (ok : Bool) :
+    (xmpTest e decr (.memory data n) info w).world = w ∧
+    (xmpTest e decr (.callbacks ok data) info w).world = w := by
+  constructor
+  · unfold xmpTest
+    simp only [openSource, testDepacks]
+    split <;> simp [closeInternal]
+  · unfold xmpTest
+    cases ok <;> simp [openSource, testDepacks, closeInternal]
+
+/-! ## Non-vacuity: a table satisfying every hypothesis, and the model run on it -/
+
+/-- accepts streams whose first byte is `k`; when asked for a title reads one of 4 bytes at
+offset 1 with `libxmp_read_title`; the loader keeps the same bytes raw -/
+def exLoader (k : UInt8) (nm : Bytes) : Loader where
+  name := nm
+  test := fun s want =>
+    let hit := s.data.head? = some k
+    if want then
+      let r := readTitle { s with pos := 1 } 4
+      { rc := if hit then 0 else -1, title := r.1, st := r.2 }
+    else { rc := if hit then 0 else -1, st := { s with pos := 1 } }
+  load := fun s => { rc := 0, name := strncpyBuf (zeros 64) ((s.data.drop 1).take 4 ++ [0]) 4 }
+
+def exEnv : Env :=
+  { loaders := [exLoader 7 [88, 77], exLoader 9 [73, 84]], pw := fun _ => none,
+    bufGarbage := List.replicate 64 0xDD, pwGarbage := [] }
+
+theorem exLoader_premise (k : UInt8) (nm : Bytes) (s : Stream) :
+    (((exLoader k nm).test s true).rc = 0 ↔ ((exLoader k nm).test s false).rc = 0) ∧
+    ∀ w, ((exLoader k nm).test s w).st.data = s.data := by
+  constructor
+  · simp [exLoader]
+  · intro w
+    cases w <;> simp [exLoader, readTitle, Stream.read]
+    split <;> rfl
+
+example : Premise exEnv.loaders ∧ NonPos exEnv.loaders ∧ PrepOk exEnv.loaders := by
+  refine ⟨?_, ?_, ?_⟩
+  · intro l hl s
+    simp only [exEnv, List.mem_cons, List.mem_nil_iff, or_false] at hl
+    rcases hl with rfl | rfl <;> exact exLoader_premise _ _ s
+  · intro l hl s w
+    simp only [exEnv, List.mem_cons, List.mem_nil_iff, or_false] at hl
+    rcases hl with rfl | rfl <;> cases w <;> simp only [exLoader] <;> split <;> decide
+  · intro l hl s
+    simp only [exEnv, List.mem_cons, List.mem_nil_iff, or_false] at hl
+    rcases hl with rfl | rfl <;> simp [exLoader, Gen.prepareScanReturns]
+
+/-- second loader matches; title "A\x01 " + NUL: test reports "A." and load "A" — a match -/
+example :
+    let s : Stream := { data := [9, 65, 1, 32, 0, 5] }
+    (testModule exEnv s (some f15Info)).1 = 0 ∧
+    ((testModule exEnv s (some f15Info)).2.1.map fun i => (cstr i.name, cstr i.type)) = some ([65, 46], [73, 84]) ∧
+    (loadModule exEnv s).rc = 0 ∧ ((loadModule exEnv s).name.map cstr) = some [65] ∧
+    titleMatch [65, 46] [65] = true := by decide
+
+/-- nothing matches: −FORMAT on both sides, strings emptied -/
+example :
+    let s : Stream := { data := [3, 65] }
+    (testModule exEnv s (some f15Info)).1 = eFormat ∧ (loadModule exEnv s).rc = eFormat ∧
+    ((testModule exEnv s (some f15Info)).2.1.map fun i => (cstr i.name, cstr i.type)) = some ([], []) := by decide
+
+/-- hypotheses of `C11_agree_wrappers`: the FILE pair on an input `libxmp_decrunch` leaves alone -/
+example : ∀ h s, openSource (.file 7 [9, 65] true) = .ok (h, s) → (fun _ : Stream => Decr.notPacked) s = .notPacked :=
+  fun _ _ _ => rfl
+
+/-- hypotheses of `C11_strings_success_partial` hold for a detector that read its title -/
+example : PwTitleTerminated { f15Env with pw := fun _ => some { title := some (pwReadTitle (some [72, 105]) 20), fname := [80] } }
+    ∧ PwNameShort { f15Env with pw := fun _ => some { title := some (pwReadTitle (some [72, 105]) 20), fname := [80] } } := by
+  constructor
+  · intro st h hh
+    simp only [Option.some.injEq] at hh
+    subst hh
+    decide
+  · intro st h hh
+    simp only [Option.some.injEq] at hh
+    subst hh
+    decide
+
+/-- a title with an unprintable byte and trailing spaces, both ways, and the two differ -/
+example : copyAdjust [72, 1, 105, 32, 32, 0, 9] 6 = [72, 46, 105] ∧
+    adjustString ([72, 1, 105, 32, 32, 0, 9].take 6) = [72, 32, 105] ∧
+    titleMatch [72, 46, 105] [72, 32, 105] = true ∧ titleMatch [72, 46, 105] [72, 105] = false := by decide
+
+example : (7 : Nat) ∉ ({} : World).closed := by decide
 
 end Xmp.TestLoad
